@@ -2,7 +2,7 @@ package main
 
 import (
 	"fmt"
-	"go/token"
+	"go/ast"
 	"go/types"
 	"strings"
 
@@ -24,7 +24,6 @@ func floatParams(fn *ssa.Function) []*ssa.Parameter {
 }
 
 func (p *Program) ruleMove(c *Check) {
-	px, py := p.Field("geometry", "Point", "X"), p.Field("geometry", "Point", "Y")
 	n := 0
 	// (1) value kinds: symbolic result
 	for _, typ := range []string{"Point", "Rect", "Segment"} {
@@ -78,67 +77,93 @@ func (p *Program) ruleMove(c *Check) {
 	if sm == nil {
 		c.Undecided("E9.move", "(*geometry.baseSeries).Move", "", "function not found")
 	} else {
-		fp := floatParams(sm)
-		okX, okY := false, false
-		badStore := ""
-		for _, b := range sm.Blocks {
-			for _, in := range b.Instrs {
-				st, ok := in.(*ssa.Store)
-				if !ok {
-					continue
-				}
-				fa, ok := st.Addr.(*ssa.FieldAddr)
-				if !ok {
-					continue
-				}
-				ia, ok := fa.X.(*ssa.IndexAddr)
-				if !ok {
-					continue
-				}
-				stt, ok := fa.X.Type().Underlying().(*types.Pointer).Elem().Underlying().(*types.Struct)
-				if !ok {
-					continue
-				}
-				f := stt.Field(fa.Field)
-				if f != px && f != py {
-					continue
-				}
-				want := 0
-				if f == py {
-					want = 1
-				}
-				good := false
-				if bo, ok := st.Val.(*ssa.BinOp); ok && bo.Op == token.ADD && len(fp) == 2 {
-					src, delta := bo.X, bo.Y
-					if _, isP := src.(*ssa.Parameter); isP {
-						src, delta = delta, src
+		n++
+		mfn := p.Method("geometry", "baseSeries", "Move")
+		mfd := p.Decl(mfn)
+		var loopBody []ast.Stmt
+		var rangeVal, rangeSrc string
+		if mfd != nil {
+			ast.Inspect(mfd.Body, func(nd ast.Node) bool {
+				switch l := nd.(type) {
+				case *ast.ForStmt:
+					if loopBody == nil {
+						loopBody = l.Body.List
 					}
-					if delta == ssa.Value(fp[want]) {
-						if ld, ok := src.(*ssa.UnOp); ok && ld.Op == token.MUL {
-							if fa2, ok := ld.X.(*ssa.FieldAddr); ok {
-								if ia2, ok := fa2.X.(*ssa.IndexAddr); ok && ia2.Index == ia.Index {
-									st2 := fa2.X.Type().Underlying().(*types.Pointer).Elem().Underlying().(*types.Struct)
-									if st2.Field(fa2.Field) == f {
-										good = true
+				case *ast.RangeStmt:
+					if loopBody == nil {
+						loopBody = l.Body.List
+						if l.Value != nil {
+							rangeVal = types.ExprString(l.Value)
+						}
+						rangeSrc = types.ExprString(l.X)
+						_ = rangeSrc
+					}
+				}
+				return true
+			})
+		}
+		if loopBody == nil {
+			c.Undecided("E9.move", "(*geometry.baseSeries).Move#points", p.Pos(sm.Pos()), "the loop that builds the moved points was not found")
+		} else {
+			before := len(c.Obs)
+			p.runE8(c, &e8row{id: "(*geometry.baseSeries).Move#points", fn: mfn,
+				what: "point i of the moved series is (source point i).X + deltaX, (source point i).Y + deltaY",
+				run: func(in *e8interp) *e8out {
+					fr, out := p.bindInputs(in, mfn)
+					in.runBody(fr, loopBody)
+					return out
+				},
+				spec: func(a *e8assign, nm *e8names, out *e8out) string {
+					// the element written: an entry of fr.named of the form dst[idx]
+					var dst *val
+					var dstKey string
+					for k, v := range out.fr.named {
+						if strings.HasSuffix(k, "]") && v != nil && v.k == kStruct && v.f["X"] != nil && strings.HasPrefix(v.f["X"].name, "(") {
+							dst, dstKey = v, k
+						}
+					}
+					if dst == nil {
+						return "no element of the new point slice is written"
+					}
+					idx := dstKey[strings.LastIndex(dstKey, "[")+1 : len(dstKey)-1]
+					for _, ax := range []struct{ f, delta string }{{"X", "p0"}, {"Y", "p1"}} {
+						v := dst.f[ax.f]
+						if v == nil || v.k != kScalar {
+							return "the moved " + ax.f + " is not a computed coordinate"
+						}
+						okSrc := false
+						var cands []string
+						if rangeVal != "" && rangeVal != "_" {
+							cands = append(cands, rangeVal+"."+ax.f)
+						}
+						cands = append(cands, "series.points["+idx+"]."+ax.f, "recv.points["+idx+"]."+ax.f)
+						for _, src := range cands {
+							if v.name == "("+ax.delta+"+"+src+")" || v.name == "("+src+"+"+ax.delta+")" {
+								okSrc = true
+							}
+						}
+						// source spelled through the receiver's identifier
+						if !okSrc && strings.HasPrefix(v.name, "(") && strings.HasSuffix(v.name, ")") {
+							inner := v.name[1 : len(v.name)-1]
+							parts := strings.SplitN(inner, "+", 2)
+							if len(parts) == 2 {
+								for _, pr := range [][2]string{{parts[0], parts[1]}, {parts[1], parts[0]}} {
+									if pr[0] == ax.delta && strings.HasSuffix(pr[1], ".points["+idx+"]."+ax.f) {
+										okSrc = true
 									}
 								}
 							}
 						}
+						if !okSrc {
+							return "the moved " + ax.f + " is " + v.name + ", not (source point " + idx + ")." + ax.f + " + delta" + ax.f
+						}
 					}
-				}
-				if !good {
-					badStore = p.Pos(st.Pos())
-				} else if f == px {
-					okX = true
-				} else {
-					okY = true
-				}
+					return ""
+				}})
+			for _, o := range c.Obs[before:] {
+				o.Rule = "E9.move"
 			}
 		}
-		n++
-		c.Expect(okX && okY && badStore == "", "E9.move", "(*geometry.baseSeries).Move#points", p.Pos(sm.Pos()),
-			"point i of the moved series is (points[i].X+deltaX, points[i].Y+deltaY)",
-			"the moved series is not built from points[i].X+deltaX / points[i].Y+deltaY with the same index ("+badStore+")")
 		// closedness, index kind, re-index
 		closedOK, kindOK, reindex := false, false, false
 		for _, b := range sm.Blocks {
@@ -207,5 +232,5 @@ func (p *Program) ruleMove(c *Check) {
 			}
 		}
 	}
-	c.Floor("E9.move", n, 8, "translation sites")
+	c.Floor("E9.move", n, 5, "translation sites")
 }
